@@ -57,7 +57,10 @@ func main() {
 		wg.Add(1)
 		go func(w int) {
 			defer wg.Done()
-			c.RunWorker(fmt.Sprintf("idx-%d", w), time.Duration(c.Pick(8, 45))*time.Minute)
+			arg := fmt.Sprintf("idx-%d", w)
+			prefix := filepath.Join(c.Scratch, "race-"+arg)
+			c.RunWorker(arg, time.Duration(c.Pick(8, 45))*time.Minute, raceEnv(prefix))
+			collectRaces(c, prefix, arg)
 		}(w)
 	}
 	wg.Add(1)
@@ -89,9 +92,15 @@ func dist(c *vf.Ctx, cat, member string) {
 	}
 }
 
-func historyCount(c *vf.Ctx) (perWorker, nPred int) {
-	// quick 40 histories x 60 predicates; thorough 608 x 200
-	return c.Pick(5, 38), c.Pick(60, 200)
+// historyCount: quick 7 workers x 6 + 1 bloom-filter worker x 1 = 43 histories x 60
+// predicates; thorough 14 x 42 + 2 x 6 = 600 histories x 200 predicates. A history with
+// the bloom filter on costs ~30 s (every index flush rewrites 120 MB of filters), hence
+// the small share.
+func historyCount(c *vf.Ctx, bloom bool) (perWorker, nPred int) {
+	if bloom {
+		return c.Pick(1, 6), c.Pick(60, 200)
+	}
+	return c.Pick(6, 42), c.Pick(60, 200)
 }
 
 func applyIndexConfig(bloom, compress bool) {
@@ -107,8 +116,8 @@ func worker(c *vf.Ctx, arg string) {
 		return
 	}
 	nW := c.Pick(nWorkersQuick, nWorkersThorough)
-	per, nPred := historyCount(c)
-	bloom, compress := w%2 == 1, (w/2)%2 == 0
+	bloom, compress := w%8 == 7, (w/2)%2 == 0
+	per, nPred := historyCount(c, bloom)
 	applyIndexConfig(bloom, compress)
 	for k := 0; k < per; k++ {
 		hid := k*nW + w
